@@ -12,6 +12,7 @@ import (
 
 func init() {
 	register(&Property{ID: "C26", Run: runC26, Mutants: []Mutant{
+		{Name: "constructor pre-sets an omitempty field", File: "internal/3rdparty/go-dap/schematypes.go", Old: "\t\"runInTerminal\":  func() Message { return &RunInTerminalRequest{} },", New: "\t\"runInTerminal\": func() Message {\n\t\treturn &RunInTerminalRequest{Arguments: RunInTerminalRequestArguments{Kind: \"integrated\"}}\n\t},", Expect: "constructor-preset-vs-omitempty :: requestCtor[runInTerminal]"},
 		{Name: "registry entry constructs another type", File: "internal/3rdparty/go-dap/schematypes.go", Old: "\"stepOut\":                   func() Message { return &StepOutResponse{} },", New: "\"stepOut\":                   func() Message { return &StepInResponse{} },", Expect: "registry"},
 		{Name: "event removed from the registry", File: "internal/3rdparty/go-dap/schematypes.go", Old: "\t\"loadedSource\":   func() Message { return &LoadedSourceEvent{} },\n", New: "", Expect: "registry :: LoadedSourceEvent"},
 		{Name: "body read with a bare Read", File: "internal/3rdparty/go-dap/io.go", Old: "if _, err = io.ReadFull(r, content); err != nil {", New: "if _, err = r.Read(content); err != nil {", Expect: "framing :: ReadBaseMessage"},
@@ -52,6 +53,7 @@ func runC26(c *Ctx) {
 	}
 	info := pk.TypesInfo
 	const rR, rF, rD = "registry", "framing", "dispatch"
+	c26CtorPresets(c, p, pk)
 
 	// message types by embedded base
 	kinds := map[string][]string{}
